@@ -370,3 +370,47 @@ Theorem getters_keep_converted d name :
   (forall z, ud_get name d = Some (UInt z) -> getint d name = GKeep (UInt z)) /\
   (forall i, ud_get name d = Some (UFloat i) -> getfloat d name = GKeep (UFloat i)).
 Proof. unfold getbool, getint, getfloat. repeat split; intros x ->; reflexivity. Qed.
+
+(* ---- int(str(n)) = n ---- *)
+From Coq Require Import DecimalPos.
+
+Definition dstep (a : Z) (c : N) : Z := (a * 10 + digit_val c)%Z.
+
+Lemma fold_digits_acc d acc :
+  fold_left dstep (digits_of_uint d) (Zpos acc) = Zpos (Pos.of_uint_acc d acc).
+Proof.
+  revert acc. induction d; intros acc; cbn [digits_of_uint fold_left Pos.of_uint_acc]; try reflexivity;
+    unfold dstep at 2; unfold digit_val; cbn [N.sub Pos.sub Pos.sub_mask Pos.succ_double_mask Pos.double_mask Pos.pred_double Z.of_N];
+    rewrite <- IHd; f_equal; lia.
+Qed.
+
+Lemma fold_digits d : fold_left dstep (digits_of_uint d) 0%Z = Z.of_N (Pos.of_uint d).
+Proof.
+  induction d; cbn [digits_of_uint fold_left Pos.of_uint]; try reflexivity;
+    unfold dstep at 2; unfold digit_val; cbn [N.sub Pos.sub Pos.sub_mask Pos.succ_double_mask Pos.double_mask Pos.pred_double Z.of_N Z.mul Z.add];
+    try exact IHd; apply fold_digits_acc.
+Qed.
+
+Lemma digits_of_uint_all d : forallb is_digit (digits_of_uint d) = true.
+Proof. induction d; cbn [digits_of_uint forallb]; try reflexivity; rewrite IHd; reflexivity. Qed.
+
+Theorem py_int_of_decimal_text_positive p : py_int (z_to_str (Zpos p)) = Some (Zpos p).
+Proof.
+  cbn [z_to_str]. rewrite py_int_digits.
+  - f_equal. unfold dec_value. change (fun a c => (a * 10 + digit_val c)%Z) with dstep. rewrite fold_digits.
+    now rewrite Unsigned.of_to.
+  - apply digits_of_uint_all.
+  - pose proof (Unsigned.to_uint_nonnil p) as N. destruct (Pos.to_uint p); try discriminate; congruence.
+Qed.
+
+Theorem py_int_of_decimal_text z : py_int (z_to_str z) = Some z.
+Proof.
+  destruct z as [|p|p].
+  - reflexivity.
+  - apply py_int_of_decimal_text_positive.
+  - cbn [z_to_str]. rewrite py_int_negative.
+    + f_equal. unfold dec_value. change (fun a c => (a * 10 + digit_val c)%Z) with dstep. rewrite fold_digits.
+      now rewrite Unsigned.of_to.
+    + apply digits_of_uint_all.
+    + pose proof (Unsigned.to_uint_nonnil p) as N. destruct (Pos.to_uint p); try discriminate; congruence.
+Qed.
